@@ -483,3 +483,104 @@ Proof.
     exists c'. split; [exact E|]. split; [apply file_valid_iff; exact V|exact H].
   - intros H. apply file_bad_content. intros n V. apply (H n). apply file_valid_iff. exact V.
 Qed.
+
+(* ================= live provider objects and their public setters ================= *)
+
+(* in-memory provider: a call obeys the width configured AT THAT MOMENT -- the provider keeps
+   no limit of its own, so re-configuring through the max_bit_width setter is exactly as good
+   as having constructed it with that width *)
+Lemma memprov_next_spec p : 0 <= m_width p -> in_range (m_width p) (m_count p) ->
+  memprov_step p MNext =
+    (Some (m_count p), {| m_count := spec_succ (m_width p) (m_count p); m_width := m_width p |}) /\
+  in_range (m_width p) (spec_succ (m_width p) (m_count p)).
+Proof.
+  intros Hw R. destruct (incr_spec _ _ Hw R) as [E R']. split; [|exact R'].
+  unfold memprov_step, mem_next. unfold increment_with_rollover in E. rewrite E. reflexivity.
+Qed.
+
+Lemma memprov_set_width_next p w :
+  memprov_step (snd (memprov_step p (MSetWidth w))) MNext =
+  memprov_step {| m_count := m_count p; m_width := w |} MNext.
+Proof. reflexivity. Qed.
+
+(* the setters change exactly what they name *)
+Lemma memprov_set_width_spec p w :
+  memprov_step p (MSetWidth w) = (None, {| m_count := m_count p; m_width := w |}).
+Proof. reflexivity. Qed.
+Lemma memprov_set_count_spec p c :
+  memprov_step p (MSetCount c) = (None, {| m_count := c; m_width := m_width p |}).
+Proof. reflexivity. Qed.
+
+(* any number of calls after a re-configuration: the abstract counter of the NEW width *)
+Fixpoint memprov_run (p : memprov) (k : nat) : list Z :=
+  match k with
+  | O => []
+  | S k' => match memprov_step p MNext with
+            | (Some v, p') => v :: memprov_run p' k'
+            | (None, _) => []
+            end
+  end.
+Lemma memprov_run_mem_run p k : memprov_run p k = mem_run (m_width p) k (m_count p).
+Proof.
+  revert p. induction k as [|k IH]; intros p; [reflexivity|].
+  cbn [memprov_run mem_run memprov_step]. unfold mem_next at 1 2. cbn [fst snd].
+  rewrite IH. reflexivity.
+Qed.
+Lemma memprov_reconfigured_seq p w c k i : 0 <= w -> in_range w c -> (i < k)%nat ->
+  let p' := snd (memprov_step (snd (memprov_step p (MSetWidth w))) (MSetCount c)) in
+  nth i (memprov_run p' k) 0 = spec_counter w (c + Z.of_nat i).
+Proof.
+  intros Hw R Hi. cbv zeta. rewrite memprov_run_mem_run. cbn [memprov_step snd m_width m_count].
+  rewrite mem_run_spec by assumption. apply count_from_nth. exact Hi.
+Qed.
+
+(* file providers *)
+Lemma w_set_cur_cur s : w_set_cur s (w_cur s) = s.
+Proof. destruct s as [w b fa fb w2]. destruct b; reflexivity. Qed.
+Lemma w_cur_set_cur s f : w_cur (w_set_cur s f) = f.
+Proof. destruct s as [w b fa fb w2]. destruct b; reflexivity. Qed.
+Lemma w_width_set_cur s f : w_width (w_set_cur s f) = w_width s.
+Proof. destruct s as [w b fa fb w2]. destruct b; reflexivity. Qed.
+
+(* a provider re-configured through the setter is indistinguishable from a NEW provider object of
+   that width on the same (existing) file: the object holds no other state *)
+Lemma world_set_width_is_new s w c : w_cur s = Some c ->
+  world_step s (WSetWidth w) = world_step s (WNew w).
+Proof.
+  intros H. cbn [world_step].
+  assert (E : w_cur (w_set_width s w) = Some c) by (destruct s as [? b ? ? ?]; destruct b; exact H).
+  rewrite <- (w_set_cur_cur (w_set_width s w)) at 1. rewrite E.
+  replace (file_new (w_cur s)) with (Some c) by (rewrite H; reflexivity).
+  reflexivity.
+Qed.
+
+(* after the setter every call uses the new width: valid content of the new range is returned and
+   advanced modulo 2^w, content outside it (or unreadable) is refused with ValueError and the file
+   is left alone *)
+Lemma world_next_after_set_width s w c : 0 <= w -> w_cur s = Some c ->
+  let s1 := snd (world_step s (WSetWidth w)) in
+  (forall n, holds_count w c n ->
+     exists c', world_step s1 WNext = (Some (Ok n), w_set_cur s1 (Some c')) /\
+                holds_count w c' (spec_succ w n)) /\
+  ((forall n, ~ holds_count w c n) -> world_step s1 WNext = (Some (Err EValue), s1)).
+Proof.
+  intros Hw Hc. cbv zeta. cbn [world_step snd].
+  assert (E : w_cur (w_set_width s w) = Some c) by (destruct s as [? b ? ? ?]; destruct b; exact Hc).
+  assert (Ew : w_width (w_set_width s w) = w) by reflexivity.
+  rewrite E, Ew. pose proof (file_next_spec w (Some c) Hw) as [Hok Hbad]. split.
+  - intros n Hn. destruct (Hok n Hn) as (c' & En & Hv & _). exists c'. rewrite En. split; [reflexivity|exact Hv].
+  - intros Hn. destruct (Hbad Hn) as [En _]. rewrite En. f_equal.
+    transitivity (w_set_cur (w_set_width s w) (w_cur (w_set_width s w))); [rewrite E; reflexivity|apply w_set_cur_cur].
+Qed.
+
+(* the two files do not interfere: a call of the second provider never touches file A, and a call
+   of the main provider never touches the file it does not point at *)
+Lemma world_next2_keeps_a s : w_a (snd (world_step s WNext2)) = w_a s.
+Proof. cbn [world_step]. destruct (file_next (w_width2 s) (w_b s)). reflexivity. Qed.
+Lemma world_next_keeps_other s :
+  let s' := snd (world_step s WNext) in
+  (if w_on_b s then w_a s' = w_a s else w_b s' = w_b s) /\ w_on_b s' = w_on_b s /\ w_width s' = w_width s.
+Proof.
+  cbv zeta. cbn [world_step]. destruct (file_next (w_width s) (w_cur s)) as [r f]. cbn [snd].
+  destruct s as [w b fa fb w2]. destruct b; cbn; auto.
+Qed.
